@@ -56,9 +56,12 @@ inline json row_json(const v2::track_row& r)
 inline tp mk_time(int ci, int v, bool frac) { return tp{std::chrono::duration_cast<tp::duration>(std::chrono::milliseconds{(1600000000LL + ci * 1000LL + v) * 1000LL + (frac ? 500 : 0)})}; }
 
 // value generator: variant v, mask m (which optionals are absent), serial s (unique path)
+// (variant 13 is the EDGE variant: zero, the Unix epoch, the empty string, false - the values a conversion is most likely to
+//  confuse with "absent")
 struct gen
 {
     int v, m, serial, ci = 0;
+    bool edge() const { return v == 13; }
     bool absent() const { return m == 1 || (m == 2 && ci % 2 == 0) || (m == 3 && ci % 2 == 1); }
     int64_t I() { return 1000LL * v + ci; }
     void operator()(const char* name, int64_t& x)
@@ -74,10 +77,10 @@ struct gen
         else if (n == "origin_track_id")
             x = v % 3 == 0 ? 0 : I();
         else
-            x = I();
+            x = edge() ? 0 : I();
     }
-    void operator()(const char*, std::optional<int64_t>& x) { ++ci; x = absent() ? std::nullopt : std::make_optional<int64_t>(I()); }
-    void operator()(const char*, std::optional<int32_t>& x) { ++ci; x = absent() ? std::nullopt : std::make_optional<int32_t>((v + ci) % 24); }
+    void operator()(const char*, std::optional<int64_t>& x) { ++ci; x = absent() ? std::nullopt : std::make_optional<int64_t>(edge() ? 0 : I()); }
+    void operator()(const char*, std::optional<int32_t>& x) { ++ci; x = absent() ? std::nullopt : std::make_optional<int32_t>(edge() ? 0 : (v + ci) % 24); }
     void operator()(const char* name, std::string& x)
     {
         ++ci;
@@ -94,15 +97,15 @@ struct gen
         ++ci;
         if (absent())
             x = std::nullopt;
-        else if (v % 5 == 4 && ci % 4 == 0)
+        else if (edge() || (v % 5 == 4 && ci % 4 == 0))
             x = std::string();   // present but empty
         else
             x = std::string(name) + "-c" + std::to_string(ci) + "v" + std::to_string(v);
     }
-    void operator()(const char*, std::optional<double>& x) { ++ci; x = absent() ? std::nullopt : std::make_optional(ci + v * 0.5); }
-    void operator()(const char*, bool& x) { ++ci; x = (ci + v) % 2 == 0; }
-    void operator()(const char*, tp& x) { ++ci; x = mk_time(ci, v, v % 4 == 3); }
-    void operator()(const char*, std::optional<tp>& x) { ++ci; x = absent() ? std::nullopt : std::make_optional(mk_time(ci, v, v % 4 == 3)); }
+    void operator()(const char*, std::optional<double>& x) { ++ci; x = absent() ? std::nullopt : std::make_optional(edge() ? 0.0 : ci + v * 0.5); }
+    void operator()(const char*, bool& x) { ++ci; x = edge() ? false : (ci + v) % 2 == 0; }
+    void operator()(const char*, tp& x) { ++ci; x = edge() ? tp{} : mk_time(ci, v, v % 4 == 3); }
+    void operator()(const char*, std::optional<tp>& x) { ++ci; x = absent() ? std::nullopt : std::make_optional(edge() ? tp{} : mk_time(ci, v, v % 4 == 3)); }
     void operator()(const char*, v2::track_data_blob& b) { ++ci; b = v2::track_data_blob{44100.0 + v, 1000 * v + 7, v % 24, 0.5 + v, 0.25 + v, 0.125 + v}; }
     void operator()(const char*, v2::overview_waveform_data_blob& b)
     {
